@@ -12,6 +12,7 @@ import (
 	"encoding/binary"
 	"errors"
 	"fmt"
+	"github.com/quic-go/quic-go"
 	"net"
 	"net/http"
 	"net/netip"
@@ -405,7 +406,7 @@ func TestVfC17QuicTarget(t *testing.T) {
 // TestVfC17ServerName: with dial_addr pointing at harness servers, the TLS server name and the HTTP Host
 // still derive from the URL host.
 func TestVfC17ServerName(t *testing.T) {
-	st := vfkit.Stats("TestVfC17ServerName", "tls/tls+pipeline/https/http upstreams whose URL host is a domain name or IP (with/without port) while dial_addr points at a harness TLS or HTTP server; oracle: SNI == URL host without port (no SNI for IP literals), HTTP Host == URL host[:port]; non-trivial = every case (dial_addr always set)")
+	st := vfkit.Stats("TestVfC17ServerName", "tls/tls+pipeline/https/http/quic/h3 upstreams whose URL host is a domain name or IP (with/without port) while dial_addr points at a harness TLS or HTTP server; oracle: SNI == URL host without port (no SNI for IP literals), HTTP Host == URL host[:port]; non-trivial = every case (dial_addr always set)")
 	defer vfkit.Flush()
 	// TLS capture server
 	var mu sync.Mutex
@@ -447,8 +448,36 @@ func TestVfC17ServerName(t *testing.T) {
 		mu.Unlock()
 		w.WriteHeader(500)
 	}))
+	// QUIC capture server (quic:// and h3:// upstreams): records the server name of the ClientHello, then refuses
+	_, qleaf := vfTLSMaterial()
+	qpc, err := net.ListenUDP("udp", &net.UDPAddr{IP: net.IPv4(127, 0, 0, 1)})
+	if err != nil {
+		t.Fatal(err)
+	}
+	defer qpc.Close()
+	qtr := &quic.Transport{Conn: qpc}
+	defer qtr.Close()
+	ql, err := qtr.Listen(&tls.Config{NextProtos: []string{"doq", "h3"}, GetConfigForClient: func(h *tls.ClientHelloInfo) (*tls.Config, error) {
+		mu.Lock()
+		snis = append(snis, h.ServerName)
+		mu.Unlock()
+		return nil, errors.New("vf: handshake refused after the ClientHello was recorded")
+	}, Certificates: []tls.Certificate{qleaf.TLS}}, &quic.Config{})
+	if err != nil {
+		t.Fatal(err)
+	}
+	defer ql.Close()
+	go func() {
+		for {
+			c, err := ql.Accept(context.Background())
+			if err != nil {
+				return
+			}
+			c.CloseWithError(0, "")
+		}
+	}()
 	rapid.Check(t, func(t *rapid.T) {
-		scheme := rapid.SampledFrom([]string{"tls", "tls+pipeline", "https", "http"}).Draw(t, "scheme")
+		scheme := rapid.SampledFrom([]string{"tls", "tls+pipeline", "https", "http", "quic", "h3"}).Draw(t, "scheme")
 		host := rapid.SampledFrom([]string{"dns.example.org", "a-b.resolver.test", "192.0.2.53", "UPPER.example"}).Draw(t, "host")
 		port := ""
 		if rapid.Bool().Draw(t, "hasPort") {
@@ -462,6 +491,9 @@ func TestVfC17ServerName(t *testing.T) {
 		if scheme == "http" {
 			dial = hl.Addr().String()
 		}
+		if scheme == "quic" || scheme == "h3" {
+			dial = qpc.LocalAddr().String()
+		}
 		mu.Lock()
 		snis, hosts = nil, nil
 		mu.Unlock()
@@ -469,8 +501,12 @@ func TestVfC17ServerName(t *testing.T) {
 		if err != nil {
 			t.Fatalf("NewUpstream(%q): %v", url, err)
 		}
-		defer u.Close()
+		defer vfClose(u)
 		ctx, cancel := context.WithTimeout(context.Background(), 2*time.Second)
+		if scheme == "quic" || scheme == "h3" {
+			cancel()
+			ctx, cancel = context.WithTimeout(context.Background(), 700*time.Millisecond)
+		}
 		_, _ = u.ExchangeContext(ctx, vfQueryMsg(3, "sni.c17"))
 		cancel()
 		mu.Lock()
